@@ -35,7 +35,9 @@ func vh_C14_L1_close_after_data_and_reuse() {
 		a.cwnd = 1 // congestion-limited: one chunk per round trip, data is still pending when the marker is reached
 	}
 	net := &vNet{a: a, b: b, dropAt: -1, dupAt: -1}
-	if vPick(2) == 1 {
+	if vtier() > 0 {
+		net.vThoroughFaults(6)
+	} else if vPick(2) == 1 {
 		net.dropAt = vPick(6)
 	}
 	// pump in small steps so the ordering of reset versus data can be observed
@@ -86,7 +88,7 @@ func vh_C14_L1_close_after_data_and_reuse() {
 	bw, berr := b.OpenStream(1, PayloadTypeWebRTCBinary)
 	vassert(berr == nil, "reopen on the receiver for its own direction")
 	vassert(bw.Close() == nil, "close the other direction")
-	net.dropAt = -1
+	net.dropAt, net.drops, net.dups = -1, nil, nil
 	net.settle(12, 2)
 	_, present = a.streams[1]
 	vassert(!present, "after both directions are reset the original stream is gone on the first side too")
